@@ -19,6 +19,8 @@ func VerifC05_TarStream() {
 	uid, gid := 1000+vChoose("uid", 2)*70000, vChoose("gid", 2)*5
 	mt := time.Unix(int64(1600000000+vChoose("mtime", 2)*86400), 0)
 	content := vBytes("content", 2)
+	targets := []string{"d/f", "./f", "sub/", "a//b", "a/../f", "..", "/abs/./x"} // a link target is opaque text, not a path to tidy
+	target := targets[vChoose("link-target", len(targets))]
 	major, minor := int64(4+vChoose("major", 2)*200), int64(vChoose("minor", 2)*300)
 	var tarbuf bytes.Buffer
 	tw := gnutar.NewWriter(&tarbuf)
@@ -31,7 +33,7 @@ func VerifC05_TarStream() {
 	}
 	w(&gnutar.Header{Typeflag: gnutar.TypeDir, Name: "d/", Mode: 0750}, nil)
 	w(&gnutar.Header{Typeflag: gnutar.TypeReg, Name: "d/f", Mode: int64(perm), Size: 2}, content)
-	w(&gnutar.Header{Typeflag: gnutar.TypeSymlink, Name: "l", Linkname: "d/f", Mode: 0777}, nil)
+	w(&gnutar.Header{Typeflag: gnutar.TypeSymlink, Name: "l", Linkname: target, Mode: 0777}, nil)
 	w(&gnutar.Header{Typeflag: gnutar.TypeChar, Name: "n", Mode: 0600, Devmajor: major, Devminor: minor}, nil)
 	tw.Close()
 
@@ -53,7 +55,7 @@ func VerifC05_TarStream() {
 	vAssert(g.MTime.Equal(mt), "file modification time changed")
 	vAssert(vEqBytes(rec.data[0], content) && g.Size == 2, "file content or size changed")
 	l := rec.links[0]
-	vAssert(l.Name == "l" && l.Target == "d/f" && l.UID == uid && l.GID == gid && l.MTime.Equal(mt), "symlink changed")
+	vAssert(l.Name == "l" && l.Target == target && l.UID == uid && l.GID == gid && l.MTime.Equal(mt), "symlink changed")
 	n := rec.devs[0]
 	vAssert(n.Name == "n" && n.Major == uint64(major) && n.Minor == uint64(minor) && n.Mode == os.ModeDevice|os.ModeCharDevice|0600 && n.UID == uid, "device node changed")
 }
@@ -63,6 +65,7 @@ func VerifC05_TarStream() {
 // store, and unpacked with UnTarIndex (1-2 workers): the same nodes arrive.
 func VerifC05_IndexRoundTrip() {
 	vSchedBlockFixed(true) // the feeder/assembler pipeline keeps its order; worker completion order is free
+	vPreempt(1)
 	mt := time.Unix(0, vI64("mtime"))
 	uid, gid := vInt("uid"), vInt("gid")
 	vAssume(uid >= 0 && gid >= 0)
